@@ -9,6 +9,12 @@ import (
 type Config struct {
 	MaxPreempt int   // preemption bound (switching away from an enabled thread); <0 = unbounded
 	MaxDev     int   // deviation bound (environment answers other than the default); <0 = unbounded
+	// MaxFree bounds the non-default choices taken at *free* thread decisions
+	// (the running thread blocked or finished, several others enabled; the
+	// default is the lowest thread id).  0 means unbounded (the classic
+	// preemption-bounding semantics); n>0 allows at most n such choices per
+	// execution (delay bounding).
+	MaxFree int
 	MaxExecs   int64 // stop after this many executions (0 = no cap); hitting it sets Stats.Capped
 	MaxSteps   int   // per-execution step limit (livelock horizon)
 }
@@ -32,19 +38,20 @@ type Failure struct {
 	Result  *Result
 }
 
-func cost(d Decision, c int) (pre, dev int) {
+func cost(d Decision, c int) (pre, dev, free int) {
 	if c == 0 {
-		return 0, 0
+		return 0, 0, 0
 	}
 	switch d.Kind {
 	case KThread:
 		if !d.Free {
-			return 1, 0
+			return 1, 0, 0
 		}
+		return 0, 0, 1
 	case KEnv:
-		return 0, 1
+		return 0, 1, 0
 	}
-	return 0, 0
+	return 0, 0, 0
 }
 
 type frame struct {
@@ -89,15 +96,18 @@ func Explore(cfg Config, body func(), check func(r *Result) string) (Stats, *Fai
 		if msg := check(r); msg != "" {
 			return st, &Failure{Msg: msg, Choices: choices, Result: r}
 		}
-		pre, dev := 0, 0
+		pre, dev, free := 0, 0, 0
 		for i, d := range r.Decisions {
 			if i >= len(f.prefix) {
 				for alt := d.N - 1; alt >= 1; alt-- {
-					p, e := cost(d, alt)
+					p, e, fr := cost(d, alt)
 					if cfg.MaxPreempt >= 0 && pre+p > cfg.MaxPreempt {
 						continue
 					}
 					if cfg.MaxDev >= 0 && dev+e > cfg.MaxDev {
+						continue
+					}
+					if cfg.MaxFree > 0 && free+fr > cfg.MaxFree {
 						continue
 					}
 					np := make([]int, i+1)
@@ -106,9 +116,10 @@ func Explore(cfg Config, body func(), check func(r *Result) string) (Stats, *Fai
 					stack = append(stack, frame{prefix: np, sigs: sigs[:i+1]})
 				}
 			}
-			p, e := cost(d, d.Chosen)
+			p, e, fr := cost(d, d.Chosen)
 			pre += p
 			dev += e
+			free += fr
 		}
 	}
 	return st, nil
